@@ -420,7 +420,10 @@ def cases(rng, tier):
                 ops.append(dict(t="rotate", rot=gen_rot(rng), n=n))
         if all(o["t"] == "clear" or o.get("bad") for o in ops):
             ops.append(dict(t="rotate", rot=gen_rot(rng), n=None))
-        yield dict(kind="hist", field=spec, ops=ops)
+        # a quarter of the fields: the region OBJECT of the field's mesh is stretched in place before the rotator is made
+        # (`field.mesh.region.scale(...)`: cell sizes change without any Mesh method being called)
+        pre = rng.choice([[2.0, 1.0, 1.5], [0.5, 2.0, 1.0], [1.0, 1.0, 4.0], [3.0, 0.5, 0.25]]) if rng.random() < 0.25 else None
+        yield dict(kind="hist", field=spec, ops=ops, pre=pre)
     # long meshes (hundreds to thousands of cells along one axis), explicit target resolution of the same order; checked
     # against the property's statement on the real code alone (the exact model is kept for the small meshes above)
     for k in range(14 if tier == "quick" else 120):
@@ -506,6 +509,9 @@ def run_impl(case):
     fail = obs["oracle"].append
     if case["kind"] == "hist":
         f, info = build_field(case["field"])
+        if case.get("pre") and case["field"]["kind"] not in ("affine",) and not f.mesh.subregions and f.mesh.region.ndim == len(case["pre"]):
+            f.mesh.region.scale(tuple(case["pre"]), inplace=True)
+            obs["tags"].append("history:region-object-stretched-in-place")
         snap = (np.array(f.array, copy=True), fieldio.mesh_json(f.mesh))
         obs["field"] = fieldio.field_json(f)
         obs["tags"] += [f"nvdim:{f.nvdim}", "data:" + case["field"]["kind"], "mapping:" + ("given" if case["field"]["vmap"] else "default"),
